@@ -18,6 +18,60 @@ def gen(ctx, cmds, n):
     return cases
 
 
+def readers(ctx):
+    """the two readers: cells the file marks as missing stay missing whatever MissingValue says; exactly the cells equal to the declared
+    missing value are added; downstream commands never see the hidden numbers"""
+    import os
+    import numpy
+    from . import c17, c18
+    rng = ctx.rng
+    tmp = common.tmpdir("mpv_c03_")
+    for i in range(ctx.budget(12, 400)):
+        shape = rng.choice(c18.SHAPES)
+        n = int(numpy.prod(shape))
+        vals = [rng.choice([-9999.0, -1.0, 0.0, 0.5, 1.0, 2.0, 7.0]) for _ in range(n)]
+        mask = eems.rand_mask(rng, n, rng.choice(["one", "some"]))
+        arr = numpy.ma.array(numpy.array(vals).reshape(shape), mask=numpy.array(mask).reshape(shape))
+        path = os.path.join(tmp, "v%d.nc" % (i % 5))
+        c18.make_var_file(path, shape, arr, fill=rng.choice([-9999.0, None, 1e30]))
+        missing = rng.choice([None, 7, 0, 2.0, -12345])
+        tname = rng.choice([None, "Float", "Integer"])
+        out = c18.read_impl(path, "v", tname, missing)
+        ctx.case("ncreader %r %r %r" % (vals, mask, missing), sample=None)
+        ctx.count("reader_cases:netcdf")
+        desc = {"values": vals, "file_missing": mask, "MissingValue": missing, "shape": shape, "DataType": tname}
+        if out[0] != "ok":
+            ctx.fail("NetCDF EEMSRead failed: %s" % (out[1],), desc)
+            continue
+        gm = numpy.ma.getmaskarray(out[1]).ravel().tolist()
+        from netCDF4 import Dataset
+        with Dataset(path) as ds:           # what the file itself marks as missing (cells stored as the fill value), per the library
+            mask = numpy.ma.getmaskarray(ds["v"][:]).ravel().tolist()
+        desc["file_missing"] = mask
+        conv = (lambda x: float(numpy.rint(x))) if tname == "Integer" else float
+        mv = None if missing is None else (float(int(missing)) if tname == "Integer" else float(missing))
+        want = [m or (mv is not None and conv(v) == mv) for v, m in zip(vals, mask)]
+        if gm != want:
+            ctx.fail("NetCDF EEMSRead: missing cells %r; the file marks %r missing and MissingValue=%r adds exactly the equal cells: %r" % (gm, mask, missing, want), desc)
+    for i in range(ctx.budget(12, 400)):
+        n = rng.randrange(1, 9)
+        vals = [rng.choice([-9999, -1, 0, 1, 2, 7, 2.5]) for _ in range(n)]
+        path = os.path.join(tmp, "c%d.csv" % (i % 5))
+        open(path, "w").write("a,b\n" + "".join("%r,%r\n" % (v, 1) for v in vals))
+        missing = rng.choice([None, -9999, 2, 2.5, 0])
+        integer = rng.choice([None, False, True])
+        out = c17.read_impl(path, "a", missing, integer)
+        ctx.case("csvreader %r %r %r" % (vals, missing, integer), sample=None)
+        ctx.count("reader_cases:csv")
+        if out[0] != "ok":
+            ctx.fail("CSV EEMSRead failed: %s" % (out[1],), {"values": vals})
+            continue
+        conv = (lambda x: float(int(x))) if integer else float
+        want = [missing is not None and conv(v) == conv(missing) for v in vals]
+        if numpy.ma.getmaskarray(out[1]).tolist() != want:
+            ctx.fail("CSV EEMSRead: missing cells %r, expected %r for MissingVal=%r" % (numpy.ma.getmaskarray(out[1]).tolist(), want, missing), {"values": vals, "DataType": integer})
+
+
 def run(ctx):
     ctx.check_proofs(["MPilot.Props.C03"])
     model = common.Model()
@@ -25,6 +79,7 @@ def run(ctx):
     n = ctx.budget(14, 600)
     eems.run_stream(ctx, model, gen(ctx, list(eems.COMMANDS), n), "exec:all-commands:masks", on_result=orc)
     numeric.focus_search(ctx, model, lambda cmds, f: gen(ctx, cmds, n * f), orc)
+    readers(ctx)
     return ctx.finish(
         rule="cases = (data command, parameters, inputs with masks none/one/some/most and adversarial hidden payloads ±1e20, "
              "category keys, control points); each masked case is re-run with different payloads; distinct by protocol line; "
